@@ -358,6 +358,8 @@ func (w *World) absorb() {
 					c.Ref.Direct[r.ResRID]--
 					c.Ref.DirectLog = append(c.Ref.DirectLog, DirectRec{T: e.T, RID: r.ResRID, Kind: "res-denied", Count: 1, After: c.Ref.Direct[r.ResRID]})
 					r.ResDenied = true
+					// the error placeholder is not retained either
+					c.Ref.gc(e.T)
 				case 1:
 				default:
 					c.Ref.AmbigDirect[r.ResRID] = true
@@ -472,6 +474,15 @@ func (w *World) execOne(op Op) {
 	case "connect":
 		w.doConnect(op)
 	case "creq":
+		if op.N > 1 {
+			// the same request N times, with consecutive ids, back to back
+			for i := 0; i < op.N; i++ {
+				one := op
+				one.N, one.ID = 0, op.ID+uint64(i)
+				w.execOne(one)
+			}
+			return
+		}
 		c := w.client(op.C)
 		if c == nil || !c.Dialed || c.Closed || c.EOF {
 			return
